@@ -323,7 +323,7 @@ def _gen_script(rng, i):
     elif k < 0.96 and template in ('members', 'random'):
       steps.append([rng.choice(['join', 'leave']), rng.randint(0, 3)])
     else:
-      steps.append(['badreply', rng.randint(0, 5), rng.choice(['appexc', 'garbage'])])
+      steps.append(['badreply', rng.randint(0, 5), rng.choice(['appexc', 'garbage', 'empty', 'empty'])])
   return s
 
 
@@ -343,10 +343,12 @@ def _decorate(rng, s):
           st.append(['adv', 10])
     s['steps'] = st
   elif k < 0.22:
-    big = rng.choice([1500, 16500, 20000, 66000])
+    big = rng.choice([1500, 16500, 20000, 66000, 140000])
     for op in s['steps']:
       if op[0] == 'issue' and rng.random() < 0.5:
         op.append(big if rng.random() < 0.8 else rng.choice([100, 4000]))
+    if rng.random() < 0.6:
+      s['send_max'] = rng.choice([700, 30000, 65536, 70000])
   elif k < 0.32 and not any(o[0] in ('join', 'leave') for o in s['steps']):
     if rng.random() < 0.3:
       s['twin'] = 'start'
@@ -581,6 +583,8 @@ def run_case(script):
     except Exception:
       i = 0
     p = plans[i]
+    if script.get('send_max'):
+      conn.send_max = script['send_max']      # a single send() accepts at most that many bytes
     if p[0] == 'hang':
       conn.connect_plan = ('hang',)
     else:
@@ -657,6 +661,9 @@ def run_case(script):
         p = un[op[1] % len(un)]
         if op[2] == 'appexc':
           peer.release(p, payload=peers.tbin_encode_appexc(rec.method, 'boom', p.call.get('seqid', 0)))
+        elif op[2] == 'empty':
+          # a well-formed reply whose result struct has no field set (no value, no declared exception)
+          peer.release(p, payload=peers.tbin_encode_void_reply(rec.method, p.call.get('seqid', 0)))
         else:
           peer.release(p, payload=b'\x00\x01garbage')
     elif k == 'stepq':
